@@ -416,7 +416,8 @@ impl LexiconReader {
                 });
             }
 
-            if e.right_id >= self.max_right {
+            // indexed entries must have a valid right_id as well
+            if e.right_id >= self.max_right || (e.should_index() && e.right_id < 0) {
                 return ctx.err(BuildFailure::InvalidFieldSize {
                     actual: e.right_id as _,
                     expected: self.max_right as _,
